@@ -1094,7 +1094,7 @@ def _aug(a, b, op):
     return [acc, a]
 
 
-NAMES.update(_aug=_aug, if_guard=lambda fn: fn)      # unguarded, an if_guard-wrapped function is the function
+NAMES.update(_aug=_aug, if_guard=lambda fn: fn, igprint=lambda *a, **k: None)      # unguarded, an if_guard-wrapped function is the function
 
 
 def snark(fn):
